@@ -200,6 +200,11 @@ func crashCase(env *core.Env, idx int, prop, bias string) *core.CaseResult {
 		res.Add("concurrent_histories", 1)
 		res.Add("concurrent_history_clients", int64(p.Clients))
 	} else {
+		if idx%8 == 2 {
+			// the recorded history starts on a database that earlier sessions filled and left like a crash (page LSNs > 0,
+			// log truncated by the start-up, with or without an idle session in between)
+			p.PreEpochs = 1 + r.Intn(2)
+		}
 		if idx%8 == 6 {
 			// one transaction larger than the log buffer: wide rows, every row changed by one statement, big pool (no eviction
 			// flushes the log in between), no index on the changed column
@@ -253,6 +258,9 @@ func crashCase(env *core.Env, idx int, prop, bias string) *core.CaseResult {
 		tornEvery = 1
 	}
 	im := &rec.Image{}
+	if h.Base != nil {
+		im = h.Base.Clone()
+	}
 	path := fmt.Sprintf("%s/img_%d", env.TmpDir, idx)
 	memKB := p.MemKB
 	hdesc := describeHistory(h)
